@@ -4,7 +4,8 @@ package main
 // switches (the functions call themselves on every member), nested collections, and the geometries no case
 // lists (points, multi-points, bounds, nil: the zero the functions start from is returned).
 //
-//	opgc <tag> <geometry>  =>  <op.Area> <op.Length>     (float64 bit patterns)
+//	opgc <tag> <geometry>  =>  <op.Area> <op.Length> <err | pt:X:Y>     (float64 bit patterns; the last token is op.Centroid:
+//	                                                                    every geometry but a Polygon is its `default` case, an error)
 //
 // Polygons are valid, wound alternately (the assumption op.Area documents: shell one way, holes the other,
 // either common direction), any start vertex, closed or unclosed; line strings have integer coordinates
@@ -30,8 +31,13 @@ func evalGC(line string) string {
 		a := op.Area(g)
 		l := op.Length(g)
 		res = vproto.F2H(a) + " " + vproto.F2H(l)
+		if c, err := op.Centroid(g); err != nil {
+			res += " err"
+		} else {
+			res += " pt:" + vproto.F2H(c.X) + ":" + vproto.F2H(c.Y)
+		}
 		if vproto.GeomToks(g) != before {
-			res += " modified:op.Area/op.Length"
+			res += " modified:op.Area/op.Length/op.Centroid"
 		}
 	})
 	if pan != "" {
